@@ -1453,18 +1453,23 @@ void TopologyKernel::swap_cell_indices(CellHandle _h1, CellHandle _h2)
     if (has_face_bottom_up_incidences()) {
     const bool h1_live = !cell_deleted_[_h1];
     const bool h2_live = !cell_deleted_[_h2];
+    // collect first, then rename: a halfface contained in both cells (non-manifold
+    // configuration) must not be renamed twice
+    std::vector<HalfFaceHandle> to_h2, to_h1;
     if (h1_live) {
     for (const auto hfh: cells_[_h1].halffaces()) {
         if (incident_cell_per_hf_[hfh] == _h1)
-            incident_cell_per_hf_[hfh] = _h2;
+            to_h2.push_back(hfh);
     }
     }
     if (h2_live) {
     for (const auto hfh: cells_[_h2].halffaces()) {
         if (incident_cell_per_hf_[hfh] == _h2)
-            incident_cell_per_hf_[hfh] = _h1;
+            to_h1.push_back(hfh);
     }
     }
+    for (const auto hfh: to_h2) incident_cell_per_hf_[hfh] = _h2;
+    for (const auto hfh: to_h1) incident_cell_per_hf_[hfh] = _h1;
     }
 
     // swap vector entries
